@@ -1714,6 +1714,12 @@ class _Idioms(ast.NodeTransformer):
     return n
 
   def visit_Call(self, n):
+    # dict(a=x, b=y)  ==  {'a': x, 'b': y}
+    if isinstance(n.func, ast.Name) and n.func.id == 'dict' and not n.args and n.keywords \
+        and all(k.arg is not None for k in n.keywords):
+      new = ast.Dict(keys=[ast.Constant(k.arg) for k in n.keywords],
+                     values=[k.value for k in n.keywords])
+      return self.visit(ast.fix_missing_locations(ast.copy_location(new, n)))
     # operator.attrgetter('a', 'b')(X)  ==  (X.a, X.b);  attrgetter('a')(X) == X.a
     if isinstance(n.func, ast.Call) and ast.unparse(n.func.func) == 'operator.attrgetter' \
         and n.func.args and not n.func.keywords and len(n.args) == 1 and not n.keywords \
